@@ -748,7 +748,9 @@ class Check(PropertyCheck):
         'copy.deepcopy is an isomorphic copy of the reachable object graph onto fresh objects (sharing inside one '
         'call is preserved by its memo); immutable scalars (float, int, str, bool, None, functions) have no identity',
         'the tolerance of PixCoord equality is numpy\'s allclose rule |a-b| <= atol + rtol*|b| with rtol = 1e-5, '
-        'atol = 1e-8 (exact values of those doubles); "differs" for a pixel position means outside that band',
+        'atol = 1e-8 (exact values of those doubles), tested both ways round; "differs" for a pixel position '
+        'means outside that band relative to both operands, "same" inside it relative to both (in between the '
+        'oracle makes no claim beyond symmetry)',
         'meta / visual values are scalars or flat lists of scalars and contain no NaN',
         'regular-polygon vertices and derived floats are not computed by the model (elided); the oracle checks them '
         'against a fresh construction',
